@@ -7,7 +7,8 @@
 From Coq Require Import ZArith List Bool Lia.
 From Coq Require Import Reals.
 From RV Require C04.Model.
-From RV Require Import Common.Num Common.RealNum C09.Model C09.Proofs C09.Run C09.Concrete C09.GetSim Gen.C09GetSim.
+From RV Require Import C01.FreeAlg C01.ModelX.
+From RV Require Import Common.Num Common.RealNum C09.Model C09.Proofs C09.Run C09.Concrete C09.ConcreteWH C09.Corrector2 C09.GetSim Gen.C09GetSim C09.Access Gen.C09Access.
 Import ListNotations.
 
 (* ------------------------------------------------------------------ (c) synchronize twice = once *)
@@ -210,14 +211,82 @@ Theorem C09_kdk_unsafe_eq_safe :
 Proof. exact kdk_unsafe_eq_safe. Qed.
 Print Assumptions C09_kdk_unsafe_eq_safe.
 
-(* STILL ASSUMED for the true Wisdom-Holman operators (hypotheses of C09_whfast/saba/mercurius_unsafe_eq_safe):
-   - Kepler group law kepler a (kepler b j) = kepler (a+b) j at the arguments (dt/2, dt/2), (5dt/8, 3dt/8), (c0 dt, c0 dt):
-     C03 proves the f-g step exact on one orbit, the group law is not mechanised yet;
-   - from_inertial (to_inertial j) = j: C12 proves the OTHER composition (inverse after forward = id on inertial
-     coordinates); the composition needed here follows for these square linear maps but is not mechanised;
-   - corrector forward after inverse = id: the corrector words of C01 cancel letter by letter given the two laws
-     above and kick additivity (proved here: kick_add); not mechanised as a statement about states;
-   - NOT true, hence never assumed for the real code: corrector2 (see known finding), EOS drift/processors. *)
+(* ------------------------------------------------------------------ the refinement with laws only AT THE STATES OF THE RUN *)
+Theorem C09_whfast_unsafe_eq_safe_pointwise :
+  forall T (N : Num T) P J (O : @WOps T P J) dt (c : wcfg) (s0 : @wst P J) n,
+  w_init_ok c = true -> w_var c = false -> coherent O s0 ->
+  (forall k, (k < n)%nat -> law_at N O dt c (pjh (iter (S k) (w_step N O dt (with_mode c false false)) s0))) ->
+  w_sync N O dt (with_mode c false false) (iter (S n) (w_step N O dt (with_mode c false false)) s0)
+  = iter (S n) (w_step N O dt (with_mode c true false)) s0.
+Proof. intros T N P J O dt c s0 n h1 h2 h3 h4. exact (unsafe_eq_safe_at N O dt c h1 h2 n s0 h3 h4). Qed.
+Print Assumptions C09_whfast_unsafe_eq_safe_pointwise.
+
+(* ------------------------------------------------------------------ CONCRETE Wisdom-Holman operators (coq/C09/ConcreteWH.v)
+   Kepler drift = C03's exact Kepler flow kflow on every Jacobi body, com drift = free drift of slot 0, coordinate maps
+   = C12's jac_fwd / jac_inv on each of the six components, interaction (all kernels) ARBITRARY.  The laws are
+   discharged by C03_kflow_group and C12_jacobi_forward_after_inverse.  Remaining hypotheses, all about the run and the
+   masses, none about the operators: [masses_ok] (partial mass sums non-zero, 1 <= N_active <= N) and [wj_dom] at
+   every unsynchronized state of the run (one entry per particle, every Jacobi body on an elliptic orbit: the domain
+   on which C03 proves the group law; a kick may leave it).  WHFast: every kernel, Jacobi coordinates, symplectic
+   correctors off (corrector = corrector2 = 0), no variational particles. *)
+Theorem C09_whfast_jacobi_concrete_unsafe_eq_safe :
+  forall ms na mus I Imk Ilazy rep dt (c : wcfg) s0 n,
+  masses_ok ms na -> w_init_ok c = true -> w_var c = false -> w_corr c = 0%nat -> w_corr2 c = false ->
+  coherent (WJ ms na mus I Imk Ilazy rep) s0 ->
+  (forall k, (k < n)%nat ->
+     wj_dom ms mus (pjh (iter (S k) (w_step RNum (WJ ms na mus I Imk Ilazy rep) dt (with_mode c false false)) s0))) ->
+  w_sync RNum (WJ ms na mus I Imk Ilazy rep) dt (with_mode c false false)
+    (iter (S n) (w_step RNum (WJ ms na mus I Imk Ilazy rep) dt (with_mode c false false)) s0)
+  = iter (S n) (w_step RNum (WJ ms na mus I Imk Ilazy rep) dt (with_mode c true false)) s0.
+Proof. intros ms na mus I Imk Ilazy rep. exact (wj_unsafe_eq_safe ms na mus I Imk Ilazy rep). Qed.
+Print Assumptions C09_whfast_jacobi_concrete_unsafe_eq_safe.
+
+(* SABA, every type: same Kepler / com / Jacobi operators; the corrector is a velocity kick computed from positions
+   (cc + cc = 2cc proved: vkick_add), merged drift 2*c[0] by the Kepler group law *)
+Theorem C09_saba_jacobi_concrete_unsafe_eq_safe :
+  forall ms na mus SI Srep F dt (c : @scfg R) s0 n,
+  masses_ok ms na -> s_ok c = true -> s_coherent (SJ ms na mus SI Srep F) s0 ->
+  (forall k, (k < n)%nat ->
+     wj_dom ms mus (spjh (iter (S k) (s_step RNum (SJ ms na mus SI Srep F) dt (s_with_mode c false false)) s0))) ->
+  s_sync RNum (SJ ms na mus SI Srep F) dt (s_with_mode c false false)
+    (iter (S n) (s_step RNum (SJ ms na mus SI Srep F) dt (s_with_mode c false false)) s0)
+  = iter (S n) (s_step RNum (SJ ms na mus SI Srep F) dt (s_with_mode c true false)) s0.
+Proof. intros ms na mus SI Srep F. exact (sj_unsafe_eq_safe ms na mus SI Srep F). Qed.
+Print Assumptions C09_saba_jacobi_concrete_unsafe_eq_safe.
+
+Example C09_concrete_hypotheses_inhabited :
+  masses_ok [1; 1/1000; 0]%R 3 /\ C03.Solve.ell_dom 1 (1, 0, 0, 0, 1, 0)%R.
+Proof. split; [exact masses_ok_inhabited|exact ell_dom_inhabited]. Qed.
+
+(* STILL ASSUMED / NOT COVERED for the true operators:
+   - WHFast with symplectic correctors: corrector forward after inverse = id ON STATES.  The corrector words cancel
+     letter by letter (Z(a,b)^-1 = Z(-a,b), C01) given the Kepler group law at every intermediate state of the word
+     (elliptic domain there) and kick additivity; not mechanised.  corrector2: false, see the finding below.
+   - democratic heliocentric / WHDS / barycentric coordinates: C12 proves inverse after forward; the composition
+     needed here (forward after inverse) is mechanised for Jacobi only.  Same for MERCURIUS's in-place shifts
+     (the C12_mercurius_trace inverse theorems are the other composition): the MERCURIUS instance proved here, C09_kdk_unsafe_eq_safe, uses
+     identity coordinate maps.
+   - hyperbolic / parabolic Jacobi orbits at a merge point: outside C03_kflow_group's domain.
+   - EOS: its two laws are false by design (truncation error). *)
+
+(* ------------------------------------------------------------------ corrector2: how inexact its inverse is (open finding)
+   In the graded free algebra of C01 (A = Kepler drift, B = kick; a word of length n with k letters B is a term of
+   size h^n eps^k) the product  apply_corrector2(-1) ; apply_corrector2(+1)  that safe mode inserts between two steps
+   (and the product in the other order) is the identity on every word with at most one B up to length 8 and on every
+   word of length <= 3, and is NOT the identity on the words of length 4 with two B: safe mode and deferred
+   synchronisation differ by a term of size exactly eps^2 h^4 per step boundary (measured on the library: eps^2
+   scaling exact, h-exponent 4 .. 5.4).  The reversed word with inverted factors is the exact inverse. *)
+Theorem C09_corrector2_inverse_defect_is_eps2_h4 :
+  same_element (gr [8; 3; 3]%nat) c2_inverse_then_forward [] = true /\
+  same_element (gr [8; 3; 3]%nat) c2_forward_then_inverse [] = true /\
+  same_element (gr [4; 4; 2]%nat) c2_inverse_then_forward [] = false /\
+  same_element (gr [4; 4; 2]%nat) c2_forward_then_inverse [] = false /\
+  same_element (gr [8; 6; 4]%nat) (corrector2_word true ++ inv_word (corrector2_word true)) [] = true.
+Proof.
+  exact (conj (proj1 c2_identity_to_h3) (conj (proj2 c2_identity_to_h3) (conj (proj1 c2_defect_at_eps2_h4)
+           (conj (proj2 c2_defect_at_eps2_h4) c2_exact_inverse_word)))).
+Qed.
+Print Assumptions C09_corrector2_inverse_defect_is_eps2_h4.
 
 (* ------------------------------------------------------------------ exact_finish_time = 1 (reb_check_exit synchronizes, then shortens dt) *)
 Theorem C09_whfast_exact_finish_eq_safe :
@@ -277,6 +346,19 @@ Theorem C09_getsim_flags_only_for_the_integrator_in_use : forall mode integ safe
 Proof.
   intros [| |] [| | |] [|] [|]; vm_compute; repeat constructor; intros h; try reflexivity; exfalso; apply h; reflexivity.
 Qed.
+
+(* ------------------------------------------------------------------ the typing of the operators is checked on the C source
+   [access_table] is regenerated by tools/translate_c09_access.py (clang AST of integrator_whfast.c / integrator_saba.c):
+   per operator function the ordered reads / writes of r->particles, of the cache p_jh, of p_temp, and its calls.
+   Checked (definitions in C09/Access.v): the Kepler, com and jump steps read only masses of r->particles and write only
+   the cache (typed J -> J); the interaction step reads accelerations and masses of r->particles, never writes them,
+   and changes only cache velocities (typed T -> P -> J -> J); symplectic correctors, operator C/Y/U and the SABA
+   corrector recompute the inertial positions from the cache (jacobi/barycentric_to_inertial_pos) before every force
+   evaluation, read no position or velocity of r->particles themselves and write only scratch accelerations there (typed
+   J -> J); to_inertial / from_inertial only copy in the stated direction; both synchronize routines copy the cache
+   aside before moving it and copy it back after its last use. *)
+Theorem C09_operator_typing : typing_ok access_table = true.
+Proof. vm_compute. reflexivity. Qed.
 
 (* ------------------------------------------------------------------ WHFast512 (flag level; kernels opaque) *)
 Theorem C09_whfast512_sync_idempotent : forall T (N : Num T) P J (O : @XOps T P J) dt keep (s : @xst P J),
